@@ -230,6 +230,9 @@ func (t *tr) expr(e ast.Expr) string {
 		if x.Name == "true" || x.Name == "false" {
 			return "(ret " + x.Name + ")"
 		}
+		if x.Name == "nil" && x.Obj == nil {
+			return "(ret (None : goerr))" // only reachable where an error value is expected (return nil)
+		}
 		if x.Obj != nil {
 			if l, ok := t.locals[x.Obj]; ok {
 				if !l.mutable {
@@ -322,6 +325,12 @@ func (t *tr) expr(e ast.Expr) string {
 		if s, ok := x.Fun.(*ast.SelectorExpr); ok {
 			if id, ok := s.X.(*ast.Ident); ok {
 				q := id.Name + "." + s.Sel.Name
+				if q == "fmt.Errorf" && len(x.Args) == 1 {
+					if lit, ok := x.Args[0].(*ast.BasicLit); ok && lit.Kind == token.STRING {
+						msg, _ := strconv.Unquote(lit.Value)
+						return fmt.Sprintf("(ret (Some (b %s) : goerr))", coqStr(msg))
+					}
+				}
 				prim := map[string]string{"strconv.Atoi": "go_atoi", "url.QueryEscape": "go_query_escape", "strings.TrimPrefix": "go_trim_prefix", "strings.TrimSuffix": "go_trim_suffix", "strings.HasPrefix": "go_has_prefix"}[q]
 				if prim != "" {
 					args := []string{}
